@@ -2,6 +2,7 @@ import GoCrypt.Props.C11
 import GoCrypt.Props.C10
 import GoCrypt.Spec.Respell
 import GoCrypt.Props.Accept
+import GoCrypt.Props.C10General
 
 /-!
 # C20 — Unmarshal accepts only respellings of what Marshal would have written
@@ -59,5 +60,23 @@ theorem respell_reflexive_examples :
 #print axioms GoCrypt.Accept.accepts_only_respellings_bcrypt
 #print axioms GoCrypt.Accept.accepts_only_respellings_sunmd5
 #print axioms GoCrypt.Accept.accepts_only_respellings_argon2
+
+-- THE GENERAL CONVERSE (Props/C10General.lean): for an ARBITRARY struct type with consistent options, every string Unmarshal accepts
+-- is a tolerated respelling of what Marshal writes for the value read
+#print axioms GoCrypt.C10General.accepted_respell_all
+#print axioms GoCrypt.C10General.accepted_respell
+#print axioms GoCrypt.C10General.accepted_respell4
+#print axioms GoCrypt.C10General.accepted_respell6
+#print axioms GoCrypt.C10General.accepted_respell7
+#print axioms GoCrypt.C10General.accepted_respell_L1
+#print axioms GoCrypt.C10General.accepted_respell_L2
+#print axioms GoCrypt.C10General.accepted_respell_L3
+#print axioms GoCrypt.C10General.accepted_respell_L4
+#print axioms GoCrypt.C10General.accepted_respell_L6_nogroups
+#print axioms GoCrypt.C10General.accepted_respell_L6
+#print axioms GoCrypt.C10General.needs_optOk
+#print axioms GoCrypt.C10General.needs_desIntLength
+#print axioms GoCrypt.C10General.needs_intNoLength
+#print axioms GoCrypt.C10General.needs_arrayLength
 
 end GoCrypt.C20
